@@ -176,11 +176,17 @@ def make_case(rnd):
     rules = gen.gen_rules(rnd, gcfg)
     directives, keywords, ruleinfo = [], [], {}
     # keyword-like rule names
+    ren = {}
     if rnd.random() < 0.35:
-        ren = {}
         for n, _ in rules[1:] if rnd.random() < 0.7 else rules:
             if rnd.random() < 0.6:
                 ren[n] = rnd.choice([k for k in KEYWORDISH if k not in ren.values()])
+    elif len(rules) >= 2 and rnd.random() < 0.15:
+        # underscore variants of the start rule's name: the generated parser must still start from (and call) the right method
+        base = rules[0][0]
+        ren = {rules[1][0]: rnd.choice(['_' + base, base + '_' if base not in KEYWORDISH else '_' + base, '_' + base + '_'])}
+        ren = {k: v for k, v in ren.items() if v not in [n for n, _ in rules]}
+    if ren:
 
         def rn(e):
             from vf.gast import replace_children
